@@ -242,12 +242,107 @@ pub fn run(eng: &mut Engine) {
         move || strategy(tier),
         move |c| run_case(c, &known),
     );
+    let known2 = super::c01::known_fn(eng);
+    eng.generated(
+        PartCfg::new(
+            "removal-index",
+            "one small object (<= 16 symbols, any scheme, max_transfer_count 1-3, carousel none/delay/interval, allow-immediate-stop unset/false/true, both publish modes) is removed after exactly j packets for EVERY j from 0 to the number of packets the undisturbed session emits (+2), with and without a publication right after; every run is judged by the full lifecycle oracle; non-trivial = the removal fell inside a transfer; distinct by (case, j)",
+            tier.pick(1_500, 40_000),
+        ),
+        removal_strategy,
+        move |c| run_removal(c, &known2),
+    );
     let _ = Scheme::NoCode;
+}
+
+/// base of the removal sweep: a sender and one object
+#[derive(Debug, Clone, serde::Serialize, serde::Deserialize)]
+pub struct RemovalCase {
+    pub sender: SenderSpec,
+    pub obj: ObjSpec,
+    pub publish_after: bool,
+    /// None: every index; Some(j): only this one (set by the shrinker / replay)
+    pub only: Option<u16>,
+}
+
+fn removal_ops(c: &RemovalCase, j: u16) -> OpCase {
+    let mut ops = vec![Op::Add(Box::new(c.obj.clone())), Op::Publish];
+    if j > 0 {
+        ops.push(Op::Read(j));
+    }
+    ops.push(Op::Remove(0, c.publish_after));
+    for _ in 0..6 {
+        ops.push(Op::Drain);
+        ops.push(Op::Advance(400_000));
+    }
+    ops.push(Op::Drain);
+    OpCase { sender: c.sender.clone(), ops }
+}
+
+pub fn run_removal(c: &RemovalCase, known: &dyn Fn(&str) -> bool) -> CaseResult {
+    // how many packets does the undisturbed session emit (first cycle of a carousel)?
+    let base = OpCase { sender: c.sender.clone(), ops: vec![Op::Add(Box::new(c.obj.clone())), Op::Publish, Op::Drain] };
+    if let Some(k) = known_skip(&base, known) {
+        return Ok(CaseInfo::excluded(k));
+    }
+    let total = match caught(|| run_ops(&base)) {
+        Ok(Ok(r)) => r.drv.log.iter().filter(|r| r.pkt().is_some()).count(),
+        Ok(Err(e)) => return Err(e),
+        Err(p) if raptor_panic(&base, known, &p) => return Ok(CaseInfo::excluded("raptor-small-block")),
+        Err(p) => return Err(format!("sender panicked: {}", p)),
+    };
+    if total > 120 {
+        return Ok(CaseInfo::excluded("domain: session too long for the removal sweep"));
+    }
+    let mut info = CaseInfo::new();
+    let js: Vec<u16> = match c.only {
+        Some(j) => vec![j],
+        None => (0..=(total as u16 + 2)).collect(),
+    };
+    let mut inside = 0;
+    for j in js {
+        let oc = removal_ops(c, j);
+        match run_case(&oc, known) {
+            Ok(i) => {
+                if i.labels.iter().any(|l| l.contains("removed mid-transfer") || l.contains("transfer cut by removal")) {
+                    inside += 1;
+                }
+                if i.excluded.is_some() {
+                    return Ok(i);
+                }
+            }
+            Err(e) => return Err(format!("removal after exactly {} packets (of {} in the undisturbed session){}: {}", j, total, if c.publish_after { ", publish right after" } else { "" }, e)),
+        }
+    }
+    info.nt(inside > 0);
+    info.label(format!("indices swept: {}", if total < 10 { "<10" } else if total < 40 { "10-39" } else { "40-120" }));
+    info.label_if(inside > 0, "some removal fell inside a transfer");
+    info.label_if(c.obj.carousel.is_some(), "carousel");
+    info.label_if(c.obj.max_transfer_count > 1, "transfers>=2");
+    Ok(info)
+}
+
+fn removal_strategy() -> BoxedStrategy<RemovalCase> {
+    let obj = gen::ObjOpts { max_size: 400, allow_stream: false, rich_meta: false, max_transfers: 3, ..Default::default() };
+    (
+        gen::session_strategy(gen::SenderOpts { max_queues: 1, ..Default::default() }, obj, 1),
+        proptest::option::weighted(0.4, prop_oneof![(0u64..300).prop_map(CarouselSpec::DelayMs), (0u64..300).prop_map(CarouselSpec::IntervalMs)]),
+        prop_oneof![Just(None), Just(Some(false)), Just(Some(true))],
+        any::<bool>(),
+    )
+        .prop_map(|((sender, mut objs), carousel, stop, publish_after)| {
+            let mut obj = objs.remove(0);
+            obj.carousel = carousel;
+            obj.immediate_stop = stop;
+            RemovalCase { sender, obj, publish_after, only: None }
+        })
+        .boxed()
 }
 
 pub fn replay(part: &str, case: &Value) -> Option<CaseResult> {
     match part {
         "lifecycle" | "pinned" => Some(run_case(&serde_json::from_value(case.clone()).ok()?, &|_| false)),
+        "removal-index" => Some(run_removal(&serde_json::from_value(case.clone()).ok()?, &|_| false)),
         _ => None,
     }
 }
